@@ -59,7 +59,13 @@ class CursorInterp:
     # ---- function interpretation -----------------------------------------
     def run_func(self, fi, self_cls, streams, state, on_yield, depth):
         if depth > MAX_DEPTH:
-            raise AnalysisError("CT1: call nesting bound %d exceeded at %s" % (MAX_DEPTH, fi.qual))
+            raise AnalysisError("CT1: call nesting bound %d exceeded at %s (chain: %s)" % (MAX_DEPTH, fi.qual, " > ".join(self.chain[-16:])))
+        tag = "%s%s" % (fi.qual, (" [self: %s]" % self_cls.qual) if self_cls is not None and self_cls is not fi.cls else "")
+        if self.chain.count(tag) >= 2:
+            # the function is already being interpreted twice on this chain: a cycle of the (partly name-resolved) call graph.
+            # The package has no recursive stream readers; the third entry is taken to leave the stream as it found it.
+            self.recursion_cut = getattr(self, "recursion_cut", 0) + 1
+            return frozenset(state)
         env = dict(fi=fi, self_cls=self_cls, streams=set(streams), on_yield=on_yield, depth=depth,
                    returns=set(), brk=None, cont=None)
         if self_cls is not None:
